@@ -96,7 +96,7 @@ class Harness(Proc):
         self.nreq = 0
         self.marker = "@@"
 
-    def req(self, line):
+    def req(self, line, _retry=True):
         self.nreq += 1
         r, rc = self.ask(line)
         if r is None:
@@ -112,6 +112,11 @@ class Harness(Proc):
             except Exception:
                 self.p.kill()
             self.p = None
+            if _retry:
+                # a watchdog expiry can be a stall of the machine (seen once under heavy load: the same request answered
+                # in 4 ms afterwards): the verdict "timeout" stands only when a fresh process times out on it again
+                self.timeout_retries = getattr(self, "timeout_retries", 0) + 1
+                return self.req(line, _retry=False)
         return d
 
     def compile(self, src, level=1, flags=(), defines=(), files=(), name=None):
